@@ -16,7 +16,7 @@ RULE = ("table N for N in 0..40 (the 25 ids and the absent ones; the extractor p
         "triplets. Only the 25 x 64 cells (and table ids 0..40) are exhaustive; the string part of the quantifier is SAMPLED (the theorems "
         "close it on the model). Every Translate call is preceded by a throw-away call that ends in a partial codon, so state kept "
         "between calls is exposed. non-trivial = the string holds at least one complete codon; distinct by case text")
-EXHAUSTIVE = {"quick": True, "thorough": True}   # of the 25 x 64 cells (and table ids 0..40) only; strings are sampled, see RULE
+EXHAUSTIVE = {"quick": False, "thorough": False}   # of the 25 x 64 cells (and table ids 0..40) only; strings are sampled, see RULE
 TRUSTED_BASE = ["Spec/Ncbi.lean: the 25 NCBI genetic codes (standard code, reassignments, start/stop lists) typed by hand from memory, no network; "
                 "no copy of gc.prt is pinned in the tree. An independent reviewer wrote the AAs/Starts lines of the 25 codes down from memory "
                 "(gc.prt v4.6 / Biopython CodonTable), expanded the spec back into that form and compared it letter by letter with both the spec "
@@ -27,11 +27,12 @@ TRUSTED_BASE = ["Spec/Ncbi.lean: the 25 NCBI genetic codes (standard code, reass
                 "non-ASCII letters with an ASCII upper case are dotless i and long s), so for tables over A/C/G/T the two agree on every string",
                 "Go map semantics (last write wins, missing key reads as \"\") as modelled by `mapGet`"]
 ASSUMPTIONS = ["concatenation law at the split points 0 and n (and tail cases with an empty stem): one piece is the empty string, which the API "
-               "rejects (errEmtpySequenceString); the judge reads that error as the empty protein (class tag empty-piece; lemma "
+               "rejects today (errEmtpySequenceString); the empty string is outside the quantifier, so the judge reads either that error or an empty result as the empty protein (class tag empty-piece; lemma "
                "translate_empty_piece shows the model does the same; translate_append_api is the law for two non-empty pieces)",
                "A/C/G/T in either case for the one-letter-per-codon clauses (translate_len, translate_map, translate_is_ncbi); the framing, "
                "concatenation, tail and case laws hold for every string (no ASCII hypothesis since /repo 053f18d frames codons by letters)"]
 PARTIAL = []
+MIN_JUDGED_FRACTION = 0.9
 
 def small_table(r):
     """a hand-written text table: the standard code with shuffled amino-acid order and random weights"""
@@ -125,7 +126,7 @@ def cases(seed, tier):
         yield ["split", "txt:" + tt, s, "all" if len(s) <= 200 else "0,1,2"]
         yield ["tail", "txt:" + tt, s, r.choice(["", "a", "CG"])]
     # --- letters other than A/C/G/T, inside and outside ASCII: judged (a codon holding one gives no residue; framing by letters)
-    for _ in range(30 if not thorough else 400):
+    for _ in range(12 if not thorough else 80):
         i = r.choice(IDS)
         s = list(randcase(r, randword(r, ACGT, loglen(r, 3, 300))))
         for _ in range(r.randint(1, 4)):
@@ -142,7 +143,7 @@ def cases(seed, tier):
         yield ["split", "txt:" + dup, s, "all"]
     for s in ["ATéGATG", "é", "Aé", "ATG中ATG", "éééATG", "A\U0001F600TG"]:
         yield ["tr", "id:1", s]
-    for _ in range(20 if not thorough else 300):
+    for _ in range(10 if not thorough else 80):
         s = randcase(r, randword(r, "ACGTNU-R", loglen(r, 1, 200)))
         yield ["tr", "id:%d" % r.choice(IDS), s]
         yield ["tr", "txt:" + dup, s]
